@@ -174,6 +174,8 @@ pub struct TyCtx {
     pub self_assoc: BTreeMap<String, String>,
     /// `T::X` ↦ Lean text (out-parameters introduced for bounds)
     pub param_assoc: BTreeMap<(String, String), String>,
+    /// name of the struct `Self` is an instance of
+    pub self_struct: Option<String>,
 }
 
 pub fn array_len(e: &syn::Expr) -> Option<usize> {
@@ -202,6 +204,26 @@ pub fn ty_to_lean(ty: &Type, cx: &TyCtx, structs: &BTreeMap<String, StructInfo>)
         }
         Type::Slice(s) => Ok(format!("(List {})", ty_to_lean(&s.elem, cx, structs)?)),
         Type::Tuple(t) if t.elems.is_empty() => Ok("Unit".into()),
+        Type::ImplTrait(it) => {
+            // `impl Iterator<Item = X> + 'a`: the list of the items it yields
+            for b in &it.bounds {
+                if let syn::TypeParamBound::Trait(tb) = b {
+                    let seg = tb.path.segments.last().unwrap();
+                    if seg.ident == "Iterator" {
+                        if let PathArguments::AngleBracketed(ab) = &seg.arguments {
+                            for a in &ab.args {
+                                if let GenericArgument::AssocType(at) = a {
+                                    if at.ident == "Item" {
+                                        return Ok(format!("(List {})", ty_to_lean(&at.ty, cx, structs)?));
+                                    }
+                                }
+                            }
+                        }
+                    }
+                }
+            }
+            Err("impl Trait other than Iterator<Item = _>".into())
+        }
         Type::Path(p) => {
             let segs: Vec<_> = p.path.segments.iter().collect();
             if let Some(q) = &p.qself {
@@ -247,6 +269,7 @@ pub fn ty_to_lean(ty: &Type, cx: &TyCtx, structs: &BTreeMap<String, StructInfo>)
             match id.as_str() {
                 "f64" => return Ok("F".into()),
                 "bool" => return Ok("Bool".into()),
+                "usize" => return Ok("Nat".into()),
                 "Self" => return cx.self_ty.clone().ok_or_else(|| "Self outside impl".to_string()),
                 "Vec" => {
                     if args.len() == 1 {
